@@ -663,6 +663,34 @@ pub fn run(_args: &[String]) -> i32 {
 		}
 		samples.extend(e.sample_paths.iter().take(2).cloned());
 	}
+	// directed histories (independent of how deep the BFS gets under its wall cap): an output-creating
+	// operation, its cancellation, and every output-creating operation after it
+	{
+		let m = M { with_crashes: false };
+		let firsts = [Op::Receive { crash: None }, Op::Invoice];
+		let nexts = [Op::Receive { crash: None }, Op::Invoice, Op::BuildOutput, Op::CoinbaseNew { crash: None }, Op::Send { crash: None }, Op::ReceiveOtherAcct];
+		let mut paths: Vec<Vec<Op>> = vec![];
+		for f in firsts.iter() {
+			for n in nexts.iter() {
+				paths.push(vec![f.clone(), Op::CancelReceive, n.clone()]);
+				paths.push(vec![f.clone(), Op::CancelReceive, Op::Restart, n.clone()]);
+			}
+		}
+		let root = scratch_root();
+		let res = par_map(&paths, workers(), |i, p| run_path(&m, &format!("{}/c15-d{}", root, i), p));
+		for (p, r) in paths.iter().zip(res.into_iter()) {
+			transitions += p.len();
+			match r {
+				Ok(problems) => {
+					for (k, v) in problems {
+						rep.add_finding(Finding { key: format!("C15/{}", k), what: format!("{} — after {:?}", v, p), replay: json!({"path": p}) });
+					}
+				}
+				Err(e) => mach = Some(format!("directed path {:?}: {}", p, e)),
+			}
+		}
+		rep.cov("directed_paths", json!(paths.len()));
+	}
 	let (n_same, same_problems) = same_instance_cases(&scratch_root());
 	for (k, what, payload) in same_problems {
 		rep.add_finding(Finding { key: format!("C15/{}", k), what, replay: payload });
